@@ -80,26 +80,19 @@ func (f *FindSymbol) Call(s *slip.Scope, args slip.List, depth int) (result slip
 	}
 	var status slip.Object
 	vv := p.GetVarVal(string(so))
+	// Look in the package asked about, not in the current package.
+	fi := p.GetFunc(strings.ToLower(string(so)))
+	ownVar := vv != nil && vv.Pkg == p
+	// Not a stand-in for a function called before being defined.
+	ownFunc := fi != nil && fi.Pkg == p && (vv == nil || fi.Doc != nil)
 	switch {
-	case vv == nil:
-		// Look in the package asked about, not in the current package.
-		fi := p.GetFunc(strings.ToLower(string(so)))
-		switch {
-		case fi == nil:
-			return slip.Values{nil, nil}
-		case fi.Pkg == p:
-			if fi.Export {
-				status = slip.Symbol(":external")
-			} else {
-				status = slip.Symbol(":internal")
-			}
-		default:
-			status = slip.Symbol(":inherited")
-		}
-	case vv.Pkg == &slip.KeywordPkg:
+	case vv == nil && fi == nil:
+		return slip.Values{nil, nil}
+	case vv != nil && vv.Pkg == &slip.KeywordPkg:
 		status = slip.Symbol(":external")
-	case vv.Pkg == p:
-		if vv.Export {
+	case ownVar || ownFunc:
+		// A definition of the package itself comes before an inherited one.
+		if (ownVar && vv.Export) || (ownFunc && fi.Export) {
 			status = slip.Symbol(":external")
 		} else {
 			status = slip.Symbol(":internal")
